@@ -155,7 +155,7 @@ def harnesses(tier):
 ORACLES = [
     {'name': 'budget directories run through the real `tally up --format json -v` (in process) against an independent report computed from the files; '
              'one-setting-at-a-time perturbations (locality); missing / unreadable sources', 'script': 'C11.py',
-     'bound': '3 sources x settings {delimiter, has_header, decimal_separator, negate_amount, supplemental, missing file, unreadable file, rule_mode, views}'},
+     'bound': '3 sources x settings {delimiter (default, tab keyword, ';', literal tab, '|'), has_header, decimal_separator, negate_amount, supplemental, a supplemental source with its own separators, missing file, unreadable file, rule_mode, views}'},
 ]
 TRUSTED_BASE = ['pyvc symbolic executor', 'z3 5.1.0 / cvc5 1.0.3',
                 'callees of cmd_run are uninterpreted deterministic functions of their arguments (their own contracts: C05 parse_generic_csv, C06 analyze_transactions, C10 views, C12 renderers)',
@@ -163,7 +163,8 @@ TRUSTED_BASE = ['pyvc symbolic executor', 'z3 5.1.0 / cvc5 1.0.3',
                 'list.extend(batch) is viewed as appending one batch object (concatenation abstraction)']
 ASSUMPTIONS = ['A10', 'config.get(key, default) is read as "the configured value of key"']
 EXPLANATION = ('Loop invariant all_txns == Concat of the included sources\' parse calls on the real cmd_run with symbolic configuration and uninterpreted callees; call-site clauses for '
-               'analysis, views and renderers; load_config selection logic; bounded stand-in (labelled): real runs of `tally up` on generated budget directories.')
+               'analysis, views and renderers; load_config selection logic; resolve_source_format writes exactly the source\'s own overrides over the parsed FormatSpec; '
+               'bounded stand-in (labelled): real runs of `tally up` on generated budget directories.')
 
 
 def structural(tier, res):
@@ -181,6 +182,13 @@ def structural(tier, res):
     binds = [ast.unparse(n.value) for n in ast.walk(fi.node) if isinstance(n, ast.Assign) and any(isinstance(t, ast.Name) and t.id == 'format_spec' for t in n.targets)]
     built = bool(binds) and all(b == 'None' or b.startswith('parse_format_string(') or b.startswith('FormatSpec(') for b in binds)
     out.append(frames.Clause(q + '#format_spec_is_built_for_this_source', built, 'format_spec bound only from parse_format_string(...)' if built else 'format_spec bound from %s' % binds, kind='auxiliary'))
+    # a supplemental source is typed with ITS OWN decimal separator (not the run's, not another source's)
+    q2 = 'tally.config_loader.load_supplemental_sources'
+    f2 = find_function(q2)
+    res.functions[q2] = f2.describe()
+    binds2 = [ast.unparse(n.value) for n in ast.walk(f2.node) if isinstance(n, ast.Assign) and any(isinstance(t, ast.Name) and t.id == 'decimal_sep' for t in n.targets)]
+    own = bool(binds2) and all(b.startswith("source.get('decimal_separator'") for b in binds2)
+    out.append(frames.Clause(q2 + '#decimal_separator_is_the_sources_own', own, 'decimal_sep bound from source.get(...)' if own else 'decimal_sep bound from %s' % binds2, kind='auxiliary'))
     # `source` names the private copy from the first statement on (the alias classification is flow-insensitive, so it is allowed by name here)
     return out + frames.check_assigns(fi, {'warnings', 'source'}, {'parse_format_string', 'FormatSpec'}, cid=q + '#writes_only_per_source_state')
 
